@@ -5,12 +5,10 @@ go 1.25
 require (
 	github.com/gammazero/nexus/v3 v3.0.0
 	github.com/gorilla/websocket v1.5.3
+	github.com/ugorji/go/codec v1.3.1
 	golang.org/x/crypto v0.48.0
 )
 
-require (
-	github.com/gammazero/deque v1.2.1 // indirect
-	github.com/ugorji/go/codec v1.3.1 // indirect
-)
+require github.com/gammazero/deque v1.2.1 // indirect
 
 replace github.com/gammazero/nexus/v3 => /repo
